@@ -48,6 +48,9 @@ class Prog:
         self.features = None
         self.languages = None
         self.name_start = None
+        self.class_refs = None
+        self.auto_pseudo = True
+        self.ignore_bad = False
 
     # ---- GDL text -------------------------------------------------------
     def gdl(self):
@@ -123,6 +126,7 @@ class Prog:
             defs = [conv(self.class_trees.get(nm, {"k": "glyphs", "g": self.classes[nm]})) for nm in names]
             defs.append({"k": "glyphs", "g": list(range(n + 2))})
         return {"numGlyphs": n + 2, "numReal": n, "lb": n, "phantom": n + 1, "anyClass": any_id,
+                "classRefs": self.class_refs, "autoPseudo": self.auto_pseudo, "ignoreBad": self.ignore_bad,
                 "gattr": self.gattr, "features": self.features, "languages": self.languages, "nameStart": self.name_start,
                 "classes": classes, "classDefs": defs, "classNames": names + ["ANY"], "passes": passes}
 
@@ -539,6 +543,126 @@ def gen_feature_program(rng):
     prog.feature_text = "\n".join(text)
     prog.features = feats
     prog.languages = langs
+    return prog
+
+
+def gen_ref_program(rng, missing=False):
+    """Family 'refs' (C17): classes written with unicode()/U+/glyphid()/postscript()/codepoint() and ranges over fonts
+    with cmap format 4 and 12, symbol cmaps, several code points per glyph (auto-pseudos) and post names."""
+    prog = Prog()
+    n = rng.choice([14, 20, 28])
+    prog.nglyphs = n
+    kind = rng.choice(["plain", "dups", "dups", "fmt12", "symbol", "post"])
+    glyphs = [{"name": ".notdef", "adv": 500, "contours": [ttf.square(50, 0, 450, 700)]},
+              {"name": "space", "adv": 250, "contours": []}]
+    base = 0xF061 if kind == "symbol" else 0x61
+    cmap = {(0xF020 if kind == "symbol" else 0x20): 1}
+    for i in range(2, n):
+        glyphs.append({"name": "g%d" % i, "adv": 400, "contours": [ttf.square(10, 0, 300, 400 + i)]})
+        cmap[base + i - 2] = i
+    if kind == "dups":
+        for _ in range(rng.randint(1, 4)):
+            cmap[rng.choice([0x391, 0x392, 0x410, 0x411, 0x5D0, 0xC0])] = rng.randint(2, n - 1)
+    if kind == "fmt12":
+        for k in range(rng.randint(1, 3)):
+            cmap[0x10300 + k] = rng.randint(2, n - 1) if rng.random() < 0.5 else 2 + k
+    post_names = [None, "space"] + ["gl%d" % i for i in range(2, n)] if kind == "post" or rng.random() < 0.3 else None
+    prog.font = ttf.build_font(glyphs, cmap, cmap12=(kind == "fmt12"), symbol=(kind == "symbol"), post_names=post_names)
+    prog.cmap = cmap
+    prog.auto_pseudo = rng.random() < 0.8
+    cps = sorted(cmap)
+    # python-side expectation is NOT computed: the Lean model resolves the references from the font bytes.
+    refs = []
+    texts = []
+    sizes = []
+    dupfree = []
+    ncls = rng.randint(3, 7)
+    for k in range(ncls):
+        parts, rl = [], []
+        size = 0
+        for _ in range(rng.randint(1, 2)):
+            form = rng.choice(["unicode", "unicode", "urange", "glyphid", "grange", "uplus"] + (["ps"] if post_names else []))
+            if form == "unicode":
+                l = rng.sample(cps, rng.randint(1, 3))
+                parts.append("unicode(%s)" % ", ".join("0x%x" % c for c in l))
+                rl.append({"k": "unicode", "v": l})
+                size += len(l)
+            elif form == "uplus":
+                c = rng.choice([c for c in cps if c <= 0xFFFF])
+                parts.append("U+%04X" % c)
+                rl.append({"k": "unicode", "v": [c]})
+                size += 1
+            elif form == "urange":
+                a = rng.choice([c for c in cps if base <= c < base + n - 4])
+                b = a + rng.randint(1, 3)
+                parts.append("unicode(0x%x..0x%x)" % (a, b))
+                rl.append({"k": "urange", "a": a, "b": b})
+                size += b - a + 1
+            elif form == "glyphid":
+                l = rng.sample(range(2, n), rng.randint(1, 3))
+                parts.append("glyphid(%s)" % ", ".join(str(g) for g in l))
+                rl.append({"k": "glyphid", "v": l})
+                size += len(l)
+            elif form == "grange":
+                a = rng.randint(2, n - 3)
+                b = min(n - 1, a + rng.randint(1, 3))
+                parts.append("glyphid(%d..%d)" % (a, b))
+                rl.append({"k": "grange", "a": a, "b": b})
+                size += b - a + 1
+            else:
+                g = rng.randint(2, n - 1)
+                parts.append('postscript("gl%d")' % g)
+                rl.append({"k": "ps", "n": "gl%d" % g})
+                size += 1
+        texts.append("c%d = (%s);" % (k, ", ".join(parts)))
+        refs.append(rl)
+        # rough python-side resolution, only to keep substitution selectors duplicate-free
+        flat = []
+        for r_ in rl:
+            if r_["k"] == "unicode":
+                flat += [("u", c) for c in r_["v"]]
+            elif r_["k"] == "urange":
+                flat += [("u", c) for c in range(r_["a"], r_["b"] + 1)]
+            elif r_["k"] == "glyphid":
+                flat += [("g", g) for g in r_["v"]]
+            elif r_["k"] == "grange":
+                flat += [("g", g) for g in range(r_["a"], r_["b"] + 1)]
+            else:
+                flat += [("g", int(r_["n"][2:]))]
+        gl_ = [cmap.get(c, 0) if t == "u" else c for t, c in flat]
+        dupfree.append(len(set(gl_)) == len(gl_) and 0 not in gl_)
+        sizes.append(size)
+    if missing:
+        texts.append("cMiss = unicode(0x%x, 0x2345, 0x%x);" % (base, base + 1))
+        refs.append([{"k": "unicode", "v": [0x61 if kind != "symbol" else 0xF061, 0x2345, 0x62 if kind != "symbol" else 0xF062]}])
+        sizes.append(2)
+    names = ["c%d" % k for k in range(ncls)] + (["cMiss"] if missing else [])
+    prog.class_order = names
+    for nm in names:
+        prog.classes[nm] = []
+    prog.class_refs = refs
+    rules = []
+    for _ in range(rng.randint(2, 5)):
+        a = rng.randrange(ncls)
+        outs = [j for j in range(ncls) if dupfree[j] and (sizes[j] == sizes[a] or sizes[j] == 1)]
+        items = []
+        if missing and rng.random() < 0.7:
+            items.append(Item(cls="cMiss"))
+        elif rng.random() < 0.3:
+            items.append(Item(cls=names[rng.randrange(ncls)]))
+        if outs and dupfree[a] and rng.random() < 0.8:
+            items.append(Item(cls=names[a], mod=True, out=("cls", names[rng.choice(outs)], None)))
+        else:
+            items.append(Item(cls=names[a], mod=True, out=None))
+        rules.append(Rule(items))
+    prog.tables.append(("sub", [rules]))
+    env = "" if prog.auto_pseudo else "AutoPseudo = false;\n"
+    lines = ['#include "stddef.gdh"', env + "table(glyph)"] + texts + ["endtable;", "table(sub)", "pass(1)"]
+    for r in rules:
+        lines.append(rule_text(r))
+        r.line = len(lines) + env.count("\n")
+    lines += ["endpass;", "endtable;"]
+    prog.raw_gdl = "\n".join(lines) + "\n"
     return prog
 
 
